@@ -290,6 +290,7 @@ func init() {
 		// closes and resets placed at every lock-granularity point of a departure
 		// and of a relay in progress: every handler must return
 		partStepThrough(c, a, []string{"leave", "compadd-vs-leave", "action-vs-leave"})
+		partSwitchPending(c, a)
 		return a.finish(c)
 	}
 }
@@ -387,4 +388,52 @@ func partLagSenders(c *check.Ctx, a *acc) {
 	c.Coverage["lagging_member_several_senders_trials"] = done
 	c.Coverage["lagging_member_several_senders_jammed"] = jammed
 	a.add(done, jammed, "lagging member, several senders: one member stops reading until another member's custom relays fill the pipeline towards it (socket buffers + 512-entry send queue, the relaying handler waits for room); meanwhile a third member relays customs and adds an entity and a fourth moves its entity three times; the lagging member resumes; it and a steady member must have every relay exactly once in each sender's order, the latest pose, and a newcomer is handed that pose; non-trivial when the pipeline was observed full", samples...)
+}
+
+// partSwitchPending: updates pending at a departure that follows a session
+// switch (C03, C08, C11).
+func partSwitchPending(c *check.Ctx, a *acc) {
+	bin, err := c.WS.Build("lab", "plain")
+	if err != nil {
+		c.Inconc("build failed: " + err.Error())
+		return
+	}
+	type sc struct{ how, what string }
+	var scs []sc
+	for _, how := range []string{"rst", "fin", "switch"} {
+		for _, what := range []string{"pose", "comp", "both"} {
+			scs = append(scs, sc{how, what})
+		}
+	}
+	if c.Quick() {
+		// three of the nine per run, chosen by the seed; rst/both always
+		k := int(c.Seed % 3)
+		scs = []sc{{"rst", "both"}, scs[3+k], scs[6+(k+1)%3]}
+	}
+	frame := 120 * time.Millisecond
+	var mu sync.Mutex
+	done := 0
+	var samples []any
+	parallel(len(scs), 5, func(i int) {
+		p, err := c.WS.StartLab(bin, sut.LabOpts{Name: "switchpending", Frame: frame})
+		if err != nil {
+			c.Inconc(err.Error())
+			return
+		}
+		defer p.Kill()
+		out := e4.SwitchPendingTrial(p, frame, scs[i].how, scs[i].what)
+		mu.Lock()
+		defer mu.Unlock()
+		if out.Inconclusive != "" {
+			c.Inconc(out.Inconclusive)
+		} else {
+			done++
+		}
+		for _, f := range out.Findings {
+			c.Report(f)
+		}
+		samples = append(samples, map[string]any{"engine": "E4 switch, pending update, departure", "trial": out.Desc})
+	})
+	c.Coverage["switch_pending_departure_trials"] = done
+	a.add(done, done, "switch, pending update, departure: a member of session A (kept alive by witnesses) switches to a session of its own, sends pose / component updates and departs (reset, close, one more switch) before the next frame (120 ms frames); after several frames of every session the process runs, A's and another session's members are served and relayed to, the leaver's session has ended and the gauges are back; two rounds per trial", samples...)
 }
